@@ -108,8 +108,23 @@ macro_rules! step_state {
                     Ok(Some((v, (ps, pe)))) => {
                         let ka = if ps >= pe { Abs::Empty } else { Abs::Ne(ps, pe) };
                         $c.rep.outcome(&(kind, op, ka == Abs::Empty));
-                        if rv != Some(v) || ka != ra {
+                        // a differing abstract post-state is only a violation if it is observable: the futures (first 48 items
+                        // from the front and from the back) of the real post-iterator and of std's post-range must differ
+                        let observable = rv != Some(v) || (ka != ra && {
+                            let kf = catch(|| { let mut out = Vec::new();
+                                if rev { let it = into_iter!(s..e).rev(); let x = if op == "next" { it.next() } else { it.next_back() }; let mut n = x.unwrap().1; let mut m = n.copy();
+                                    for _ in 0..48 { match n.next() { Some((v, nn)) => { out.push(v); n = nn; } None => break } } out.push(v); for _ in 0..48 { match m.next_back() { Some((v, nn)) => { out.push(v); m = nn; } None => break } } }
+                                else { let it = into_iter!(s..e); let x = if op == "next" { it.next() } else { it.next_back() }; let mut n = x.unwrap().1; let mut m = n.copy();
+                                    for _ in 0..48 { match n.next() { Some((v, nn)) => { out.push(v); n = nn; } None => break } } out.push(v); for _ in 0..48 { match m.next_back() { Some((v, nn)) => { out.push(v); m = nn; } None => break } } }
+                                out });
+                            let mut sf: Vec<$T> = Vec::new();
+                            if rev { sf.extend(r.clone().rev().take(48)); sf.push(v); sf.extend(r.clone().take(48)); } else { sf.extend(r.clone().take(48)); sf.push(v); sf.extend(r.clone().rev().take(48)); }
+                            kf.ok() != Some(sf)
+                        });
+                        if observable {
                             $c.fail($tyname, kind, format!("{s:?}"), format!("{e:?}"), op, format!("yield {rv:?}, then {ra:?}"), format!("yield Some({v:?}), then {ka:?} (raw {ps:?},{pe:?})"));
+                        } else if ka != ra {
+                            $c.rep.notes.push(format!("{kind}<{}>: internal (start,end) encoding after {op} differs from std's but the futures agree (not a violation)", $tyname));
                         }
                         $post.push((false, ps, pe));
                     }
@@ -145,8 +160,23 @@ macro_rules! step_state {
                     Ok(Some((v, (ps, pe)))) => {
                         let ka = if ps > pe { Abs::Empty } else { Abs::Ne(ps, pe) };
                         $c.rep.outcome(&(kind, op, ka == Abs::Empty));
-                        if rv != Some(v) || ka != ra {
+                        // a differing abstract post-state is only a violation if it is observable: the futures (first 48 items
+                        // from the front and from the back) of the real post-iterator and of std's post-range must differ
+                        let observable = rv != Some(v) || (ka != ra && {
+                            let kf = catch(|| { let mut out = Vec::new();
+                                if rev { let it = into_iter!(s..=e).rev(); let x = if op == "next" { it.next() } else { it.next_back() }; let mut n = x.unwrap().1; let mut m = n.copy();
+                                    for _ in 0..48 { match n.next() { Some((v, nn)) => { out.push(v); n = nn; } None => break } } out.push(v); for _ in 0..48 { match m.next_back() { Some((v, nn)) => { out.push(v); m = nn; } None => break } } }
+                                else { let it = into_iter!(s..=e); let x = if op == "next" { it.next() } else { it.next_back() }; let mut n = x.unwrap().1; let mut m = n.copy();
+                                    for _ in 0..48 { match n.next() { Some((v, nn)) => { out.push(v); n = nn; } None => break } } out.push(v); for _ in 0..48 { match m.next_back() { Some((v, nn)) => { out.push(v); m = nn; } None => break } } }
+                                out });
+                            let mut sf: Vec<$T> = Vec::new();
+                            if rev { sf.extend(r.clone().rev().take(48)); sf.push(v); sf.extend(r.clone().take(48)); } else { sf.extend(r.clone().take(48)); sf.push(v); sf.extend(r.clone().rev().take(48)); }
+                            kf.ok() != Some(sf)
+                        });
+                        if observable {
                             $c.fail($tyname, kind, format!("{s:?}"), format!("{e:?}"), op, format!("yield {rv:?}, then {ra:?}"), format!("yield Some({v:?}), then {ka:?} (raw {ps:?},{pe:?})"));
+                        } else if ka != ra {
+                            $c.rep.notes.push(format!("{kind}<{}>: internal (start,end) encoding after {op} differs from std's but the futures agree (not a violation)", $tyname));
                         }
                         $post.push((true, ps, pe));
                     }
